@@ -532,6 +532,7 @@ register(
     level="exploration",
     chunk=20,
     xproc_is_violation=True,
+    scenario_wall_factor=3,
     selftest_scale=3,
     tiers={"quick": {"runs": 1500}, "thorough": {"runs": 100000}},
     rule=("each scenario (machines dense in parallel regions and deep/shallow history) is executed 6 times: under 4 different salts of "
@@ -788,6 +789,7 @@ register(
               ("abort_sync", 2, gen_c07_abort("sync")), ("abort_async", 2, gen_c07_abort("async"))],
     runner=C07.run_c07,
     stats=C07.stats_c07,
+    scenario_wall_factor=5,
     level="fault_enumeration",
     chunk=8,
     tiers={"quick": {"runs": 500}, "thorough": {"runs": 30000}},
@@ -843,6 +845,7 @@ register(
               ("cuts_invoked_machine_async", 2, gen_c12("async", 128, p_invoke=0.45, svc_kinds=("machine", "machine", "sync")))],
     runner=C12.run_c12,
     stats=C12.stats_c12,
+    scenario_wall_factor=4,
     level="fault_enumeration",
     chunk=10,
     tiers={"quick": {"runs": 2400}, "thorough": {"runs": 60000}},
